@@ -301,7 +301,7 @@ def symlist_slice(interp, st, lst: SymList, sl: slice, node):
     if sl.start is None and sl.stop is None and sl.step == -1:
         k = z3.Int(V.fresh_name("k"))
         n = to_z3(lst.length)
-        arrs = [a if (a is None or isinstance(a, str)) else z3.Lambda([k], z3.Select(a, n - 1 - k)) for a in lst.arrs]
+        arrs = [a if (a is None or isinstance(a, (str, bool, int, float))) else z3.Lambda([k], z3.Select(a, n - 1 - k)) for a in lst.arrs]
         return SymList(lst.tmpl, arrs, lst.length)
     sp = M.norm_slice(sl, lst.length)
     if sp.step != 1:
@@ -311,7 +311,7 @@ def symlist_slice(interp, st, lst: SymList, sl: slice, node):
     k = z3.Int(V.fresh_name("k"))
     arrs = []
     for a in lst.arrs:
-        if a is None or isinstance(a, str):
+        if a is None or isinstance(a, (str, bool, int, float)):
             arrs.append(a)
         else:
             arrs.append(z3.Lambda([k], z3.Select(a, k + to_z3(sp.lo))))
@@ -434,6 +434,12 @@ def grid_setitem(interp, st, g: Grid, idx, v, node):
         v = Arr.from_nested(list(v))
     if isinstance(v, Arr) and v.ndim == 0:
         v = v.flat[0]
+    # narrow integer dtypes: every stored element must fit (numpy would wrap silently)
+    if isinstance(v, Grid) and g.dtype in ("int8", "uint8", "int32") and v.kind == "int" and not interp.ctx.options.get("spec_mode"):
+        rng_ = {"int8": (-128, 127), "uint8": (0, 255), "int32": (-(2**31), 2**31 - 1)}[g.dtype]
+        qs = [z3.Int(V.fresh_name("q")) for _ in v.dims]
+        inr = z3.And(*[z3.And(q >= 0, q < to_z3(d)) for q, d in zip(qs, v.dims)])
+        interp.ctx.oblige(st, z3.ForAll(qs, z3.Implies(inr, z3.And(v.select(qs) >= rng_[0], v.select(qs) <= rng_[1]))), f"{g.dtype}-range@{getattr(node,'lineno','?')}", node, "dtype")
     # shape agreement (numpy broadcasting of the value to the slice region, aligned from the right)
     if isinstance(v, Grid):
         if v.rank > len(slice_dims):
@@ -592,6 +598,12 @@ def sym_len(interp, st, v, node=None):
     if isinstance(v, SymIter):
         if v.kind == "enumerate":
             return sym_len(interp, st, v.parts[0], node)
+        if v.kind == "zip":
+            out = None
+            for p_ in v.parts:
+                n_ = sym_len(interp, st, p_, node)
+                out = n_ if out is None else _M().s_min(out, n_)
+            return out
     if isinstance(v, _M().Rows):
         return sym_len(interp, st, v.src, node)
     if isinstance(v, Rec):
@@ -708,14 +720,15 @@ def comprehension(interp, st, node, kind):
             raise Outside("filtered comprehension over symbolic-length sequence", node)
         n = sym_len(interp, st, seq, node)
         k = z3.Int(V.fresh_name("k"))
-        x = sym_item(interp, st, seq, k, node)
-        interp.assign(gen.target, x, st)
-        n_ob = len(interp.ctx.obligations)
         st.guards.append(z3.And(k >= 0, k < to_z3(n)))
+        st.binders.append(k)
         try:
+            x = sym_item(interp, st, seq, k, node)
+            interp.assign(gen.target, x, st)
             val = interp.ev(node.elt, st)
         finally:
             st.guards.pop()
+            st.binders.pop()
         leaves = V.leaves_of(val)
         arrs = []
         for l in leaves:
